@@ -34,6 +34,30 @@ func GetMaterial() *Material {
 	return material
 }
 
+var material2 *Material
+
+// SecretDataV is SecretData with a choice of content: variant 2 holds another
+// certificate / CA / password than variant 1 (same kind, same keys).
+func SecretDataV(kind, ns, name string, variant int) map[string][]byte {
+	if variant != 2 {
+		return SecretData(kind, ns, name)
+	}
+	if material2 == nil {
+		crt, key := SelfSigned("tls.local", false)
+		ca, _ := SelfSigned("ca.local", true)
+		material2 = &Material{Crt: crt, Key: key, CA: ca}
+	}
+	switch kind {
+	case "tls":
+		return map[string][]byte{"tls.crt": material2.Crt, "tls.key": material2.Key}
+	case "ca", "cacrl":
+		return map[string][]byte{"ca.crt": material2.CA}
+	case "auth":
+		return map[string][]byte{"auth": []byte(fmt.Sprintf("user-%s-%s:{PLAIN}other-password\nuser2-%s-%s:{PLAIN}pw2\n", ns, name, ns, name))}
+	}
+	return SecretData(kind, ns, name)
+}
+
 // SecretData builds the data of a secret of the given kind:
 // tls | ca | cacrl | auth | dh | empty.
 func SecretData(kind, ns, name string) map[string][]byte {
